@@ -54,7 +54,7 @@ QuickCfgs ==
     { Cfg(1, 0, FALSE, 0, FALSE), Cfg(2, 0, TRUE, 0, TRUE), Cfg(3, 5, FALSE, 7, FALSE), Cfg(4, 5, TRUE, 7, TRUE),
       Cfg(5, 9, FALSE, 13, TRUE), Cfg(6, 9, TRUE, 13, FALSE), Cfg(1, 3, TRUE, 4, TRUE), Cfg(5, 11, FALSE, 17, FALSE),
       Cfg(2, 7, FALSE, 10, FALSE), Cfg(6, 2, TRUE, 2, FALSE), Cfg(3, 12, TRUE, 15, TRUE), Cfg(4, 1, FALSE, 19, TRUE) }
-ThoroughCfgs == QuickCfgs \cup { Cfg(f, o, r, g, r) : f \in 1..NM, o \in {0, 4, 8}, g \in {0, 6, 12}, r \in BOOLEAN }
+ThoroughCfgs == QuickCfgs \cup { Cfg(f, o, r, g, r) : f \in 1..NM, o \in {0, 8}, g \in {0, 12}, r \in BOOLEAN }
 Cfgs == IF Tier = "quick" THEN QuickCfgs ELSE ThoroughCfgs
 
 (* the history a configuration denotes: groups in their order; per group the operations in their order;
